@@ -6,7 +6,7 @@ MaxPre == atoi(IOEnv.MAXPRE)
 VARIABLES pre, done
 Init == pre = <<>> /\ done = FALSE
 \* items that define a name are not repeated (re-definition in one scope is outside the statements)
-Defining == {"label", "macro", "scope", "zeroend"}
+Defining == {"label", "macro", "scope", "zeroend", "localdef"}
 Next == ~done /\ ( (Len(pre) < MaxPre /\ \E k \in PreKinds : (k \in Defining => \A j \in 1..Len(pre) : pre[j] # k)
                                                               /\ pre' = Append(pre, k) /\ done' = FALSE)
                    \/ (done' = TRUE /\ pre' = pre) )
